@@ -108,6 +108,56 @@ fn paths_nth(i: u64, pool: &[Step], data: &RV, len: usize) -> Option<PathCase> {
     Some(PathCase { e: Expr::Var(Var { root: BASES[d[0] as usize].into(), steps }), data: data.clone() })
 }
 
+// ---- string literals whose content begins or ends with the *other* quote character, in every
+// position a literal can stand: printed, as a filter argument, as a bracket key, in a comparison
+
+#[derive(Clone, Debug, Serialize, Deserialize)]
+pub struct QuoteEdge {
+    pub src: String,
+    pub expected: String,
+}
+
+fn quote_edge_cases() -> Vec<QuoteEdge> {
+    let mut v = Vec::new();
+    for (q, o) in [('\'', '"'), ('"', '\'')] {
+        let contents = [format!("{o}"), format!("{o}{o}"), format!("{o}a"), format!("a{o}"), format!("{o}a{o}"), format!("{o} "), format!(" {o}"), format!("{o}{o}a{o}{o}"), format!("é{o}"), format!("{o}é")];
+        for c in contents {
+            let lit = format!("{q}{c}{q}");
+            v.push(QuoteEdge { src: format!("<{{{{ {lit} }}}}>"), expected: format!("<{c}>") });
+            v.push(QuoteEdge { src: format!("<{{{{ 'x' | append: {lit} }}}}>"), expected: format!("<x{c}>") });
+            v.push(QuoteEdge { src: format!("<{{{{ {lit} | size }}}}>"), expected: format!("<{}>", c.chars().count()) });
+            v.push(QuoteEdge { src: format!("{{% assign s = {lit} %}}<{{{{ s }}}}>"), expected: format!("<{c}>") });
+            v.push(QuoteEdge { src: format!("{{% if {lit} == k %}}same{{% else %}}differs{{% endif %}}"), expected: "same".into() });
+            v.push(QuoteEdge { src: format!("<{{{{ o[{lit}] }}}}>"), expected: "<found>".into() });
+            v.push(QuoteEdge { src: format!("{{% case k %}}{{% when {lit} %}}hit{{% else %}}miss{{% endcase %}}"), expected: "hit".into() });
+        }
+    }
+    v
+}
+
+fn quote_edge_oracle(c: &QuoteEdge, obs: &mut Obs) -> Check {
+    obs.nt(&c.src);
+    // the content is recovered from the source: between the first quote character and its partner
+    let start = c.src.find(['\'', '"']).unwrap_or(0);
+    let q = c.src[start..].chars().next().unwrap_or('\'');
+    let rest = &c.src[start + 1..];
+    // the literal under test is the LAST literal of the source for the append form, the first otherwise
+    let content = if c.src.contains("'x' | append: ") {
+        let s2 = &c.src[c.src.find("append: ").unwrap() + 8..];
+        let q2 = s2.chars().next().unwrap();
+        s2[1..].split(q2).next().unwrap_or("").to_string()
+    } else {
+        rest.split(q).next().unwrap_or("").to_string()
+    };
+    let data = obj(vec![("k", st(&content)), ("o", RV::Obj(vec![(content.clone(), st("found"))]))]);
+    let got = lq::with_parser(Conf::Stdlib, |p| lq::run_rv(p, &c.src, &data));
+    match &got {
+        Ok(Ok(s)) if *s == c.expected => Ok(()),
+        Err(p) => Err(Failure::new(format!("literal: panics: {}", p.site()), format!("src={:?} {}", c.src, p.what))),
+        other => Err(Failure::new("literal: a string literal that begins or ends with the other quote character does not denote its content", format!("src={:?} expected={:?} got={}", c.src, c.expected, lq::show(other)))),
+    }
+}
+
 // ---- literals
 
 #[derive(Clone, Debug, Serialize, Deserialize)]
@@ -219,6 +269,7 @@ pub fn run(ctx: &Ctx) {
         ctx.strided("paths_len4_slice", b * n.pow(4), ctx.pick(61, 2), move |i| paths_nth(i, pool, data, 4), path_oracle);
     }
     ctx.cases("int_literals", int_literals(), lit_oracle);
+    ctx.cases("quote_edge_literals", quote_edge_cases(), quote_edge_oracle);
     ctx.random("literals", ctx.pick(200_000, 5_000_000), || {
         prop_oneof![
             2 => any::<i64>().prop_map(|i| LitCase { text: i.to_string(), kind: "int".into() }),
